@@ -67,6 +67,8 @@ InitCases ==
   \/ \E dm \in DepthMaps(2) : cs = [op |-> "s_rehierarch", s |-> HSer2, dm |-> dm]
   \/ \E dm \in DepthMaps(3) : cs = [op |-> "s_rehierarch", s |-> HSer3, dm |-> dm]
   \/ \E ax \in {0, 1}, x \in {<<"s", "X">>} : cs = [op |-> "f_level_add", f |-> HF, axis |-> ax, v |-> x]
+  \/ \E h \in {HSer2, HSer3} : cs = [op |-> "s_relabel_flat", s |-> h]
+  \/ \E ax \in {0, 1} : cs = [op |-> "f_relabel_flat", f |-> HF, axis |-> ax]
   \/ \E n \in 1..2 : cs = [op |-> "f_level_drop", f |-> HF, axis |-> 0, n |-> n]
   \/ cs = [op |-> "f_level_drop", f |-> HF, axis |-> 1, n |-> 1]
   \/ \E dm \in DepthMaps(3) : cs = [op |-> "f_rehierarch", f |-> HF, axis |-> 0, dm |-> dm]
